@@ -114,6 +114,24 @@ def _check_case(intervals, probes):
                 if g != ("ok", bool(hits)):
                     return "membership", (f"{k} in ImmutIntervalMap({mapping}) -> {g}, expected {bool(hits)} (previous "
                                           f"lookups: {history[-6:-1]})")
+    # copies of the map (copy.copy, copy.deepcopy, a pickle round trip - how a map reaches another process) are maps with the
+    # same intervals: same iteration, same answers
+    if len(intervals) % 4 != 3:
+        import copy
+        import pickle
+        for how, fn in (("copy.copy", copy.copy), ("copy.deepcopy", copy.deepcopy), ("pickle round trip", lambda x: pickle.loads(pickle.dumps(x)))):
+            g = outcome(lambda: fn(m))
+            if g[0] != "ok":
+                return "copy", f"{how} of ImmutIntervalMap({mapping}) raised {g[1]}"
+            m2 = g[1]
+            if len(m2) != len(intervals) or outcome(lambda: list(m2)) != ("ok", want_it):
+                return "copy", f"{how} of ImmutIntervalMap({mapping}): iteration -> {outcome(lambda: list(m2))}, expected {want_it}"
+            for k in probes:
+                hits = [mapping[(s, e)] for s, e in intervals if s <= k <= e]
+                want = ("ok", hits[0]) if hits else ("exc", "KeyError")
+                g2, gin = outcome(lambda: m2[k]), outcome(lambda: k in m2)
+                if g2 != want or gin != ("ok", bool(hits)):
+                    return "copy", f"{how} of ImmutIntervalMap({mapping}): [{k}] -> {g2}, `in` -> {gin}; the original gives {want}"
     # keys of the other exact numeric types answer like the int / float they equal
     from decimal import Decimal
     from fractions import Fraction
